@@ -311,6 +311,36 @@ def _frange_part(repo):
     return {"stanzas": stanzas}
 
 
+def _apply_part(repo):
+    """_vnacal_apply_common: the tests on the request vector and the interpolation loop are in the
+    idiom modelled by coq/Interp/ApplyFreqRange.v / ApplyFreqModel.v (checked, nothing generated
+    beyond range_apply_reject)."""
+    where = "vnacal_apply.c:_vnacal_apply_common"
+    body = _function_body(_read(repo, "vnacal_apply.c"), "_vnacal_apply_common", "vnacal_apply.c")
+    _need(body, r"\bint\s+segment\s*=\s*0\s*;", where, "'int segment = 0;'")
+    if len(re.findall(r"\bsegment\b", body)) != 2:
+        raise TranslateError("%s: the segment variable is used in %d places (expected its declaration and one '&segment')"
+                             % (where, len(re.findall(r"\bsegment\b", body))))
+    m = _need(body, r"for\s*\(\s*int\s+i\s*=\s*0\s*;\s*i\s*<\s*vaa\.vaa_frequencies\s*-\s*1\s*;\s*\+\+i\s*\)\s*\{\s*"
+                    r"if\s*\(\s*vaa\.vaa_frequency_vector\[i\]\s*>=\s*vaa\.vaa_frequency_vector\[i\s*\+\s*1\]\s*\)\s*\{(.*?)\}\s*\}\s*"
+                    r"if\s*\(\s*vaa\.vaa_frequencies\s*==\s*0\s*\)\s*\{\s*goto\s+range_ok\s*;\s*\}\s*"
+                    r"if\s*\(\s*calp->cal_frequencies\s*==\s*0\s*\)\s*\{(.*?)\}\s*fmin\s*=", where,
+              "'for (i < frequencies - 1) if (f[i] >= f[i + 1]) {error}; if (frequencies == 0) goto range_ok; if (cal_frequencies == 0) {error}; fmin = ...'")
+    for blk in (m.group(1), m.group(2)):
+        if not re.search(r"return\s+-1\s*;", blk) or "_vnacal_error" not in blk:
+            raise TranslateError("%s: a test on the request frequencies no longer reports an error and returns -1" % where)
+    _need(body, r"range_ok\s*:", where, "label range_ok")
+    _need(body, r"for\s*\(\s*int\s+findex\s*=\s*0\s*;\s*findex\s*<\s*vaa\.vaa_frequencies\s*;\s*\+\+findex\s*\)\s*\{\s*"
+                r"double\s+f\s*=\s*vaa\.vaa_frequency_vector\[findex\]\s*;", where,
+          "'for (findex = 0; findex < vaa_frequencies; ++findex) { double f = vaa_frequency_vector[findex];'")
+    _need(body, r"for\s*\(\s*int\s+term\s*=\s*0\s*;\s*term\s*<\s*calp->cal_error_terms\s*;\s*\+\+term\s*\)\s*\{\s*"
+                r"t\[term\]\s*=\s*_vnacal_rfi\s*\(\s*calp->cal_frequency_vector\s*,\s*calp->cal_error_term_vector\[term\]\s*,\s*"
+                r"calp->cal_frequencies\s*,\s*MIN\s*\(\s*calp->cal_frequencies\s*,\s*VNACAL_MAX_M\s*\)\s*,\s*&segment\s*,\s*f\s*\)\s*;\s*\}", where,
+          "'for (term < cal_error_terms) t[term] = _vnacal_rfi(cal_frequency_vector, cal_error_term_vector[term], cal_frequencies, "
+          "MIN(cal_frequencies, VNACAL_MAX_M), &segment, f);'")
+    return True
+
+
 def translate(repo):
     out = {"consts": {}, "sites": {}}
     h = _read(repo, "vnacal_internal.h")
@@ -418,6 +448,7 @@ def translate(repo):
         if len(s["cond"]) != 2:
             raise TranslateError("%s: expected two comparisons, found %d" % (k, len(s["cond"])))
     out["frange"] = _frange_part(repo)
+    out["apply_loop_idiom"] = _apply_part(repo)
     _check_x_form(out["sites"]["range_new_parameter"], "vnacal_new_parameter.c:check_single_frequency_range")
     return out
 
